@@ -108,6 +108,16 @@ def run(tier, seed):
     for e in e4:
         res.violation("model evaluation failed (coqc)", dict(kind="coqc-error", log=e, no_failing_input_found=True))
     res.traces_validated += len(tc) - len(f4)
+    # ---- the same with electronic_integration = "linear-rk4" (Model/Traj.step_eh_rk4)
+    tcr, tmetar = ptraj.collect(res, rng, 8 if tier == "quick" else 100, 40 if tier == "quick" else 800, kind="eh", integ="rk4")
+    f4r, e4r = run_case_check("C08trajr", ptraj.PRELUDE_T, "caseE", "chkEr", tcr, per_file=4, timeout=1500)
+    for e in e4r:
+        res.violation("model evaluation failed (coqc)", dict(kind="coqc-error", log=e, no_failing_input_found=True))
+    res.traces_validated += len(tcr) - len(f4r)
+    if f4r and not bad and not corr and not f4:
+        res.violation("loop body of an Ehrenfest run with linear-rk4 differs from Model/Traj.step_eh_rk4 (Run/RTraj.chkEr): C08_full_step_rk4 no longer covers the code",
+                      dict(kind="correspondence", correspondence="Run/RTraj.chkEr: Model/Traj.step_eh_rk4 vs the loop body of Ehrenfest.simulate with electronic_integration='linear-rk4'",
+                           failing_inputs=[tmetar[i] for i in f4r[:4]], no_failing_input_found=True))
     if f4 and not bad and not corr:
         res.violation("loop body of an Ehrenfest run differs from Model/Traj.step_eh (Run/RTraj.chkE): C08_full_step no longer covers the code",
                       dict(kind="correspondence", correspondence="Run/RTraj.chkE: Model/Traj.step_eh vs advance_position; advance_velocity; propagate_electronics; surface_hopping of Ehrenfest.simulate",
